@@ -32,7 +32,14 @@ func (c exactEqualsComparator) eq(a, b Coordinates) bool {
 		return false
 	}
 	asb := a.XY.Sub(b.XY)
-	if asb.lengthSq() > c.toleranceSq {
+	if c.toleranceSq == 0 {
+		// Compare exactly when there is no tolerance. The squared length
+		// can't be used for this, because it underflows to zero for XY
+		// values that differ by less than about 1e-162.
+		if asb.X != 0 || asb.Y != 0 {
+			return false
+		}
+	} else if asb.lengthSq() > c.toleranceSq {
 		return false
 	}
 	if a.Type.Is3D() && a.Z != b.Z {
